@@ -194,6 +194,172 @@ theorem ctor_roundtrip (p : Nat) :
     · rw [e, b]
     · exact absurd a h
 
+/-! ### public variant fields, derived `==` and `Hash` (AUDIT2 a19) -/
+
+/-- the derived `==` is equality of the values (the `reason` of an `Invalid` being a function of its number) -/
+theorem derivedEq_iff (a b : FileMode) : derivedEq a b = true ↔ a = b := by
+  cases a <;> cases b <;> simp [derivedEq]
+  intro h; rw [h]
+
+/-- equal values feed the hasher the same sequence (`Hash` agrees with `==`), and different values different ones -/
+theorem hashFeed_inj (a b : FileMode) : hashFeed a = hashFeed b ↔ a = b := by
+  constructor
+  · intro h
+    cases a <;> cases b <;> simp [hashFeed] at h <;> first | (simp; omega) | (exact absurd h (by omega)) | skip
+    all_goals (try (obtain ⟨h1, _⟩ := h; simp [h1]))
+  · intro h; rw [h]
+
+/-- the variant field of a converted word is the word's low 12 bits (`None` only for `Invalid`) -/
+theorem u16_field (w : Nat) :
+    fieldOf (fromU16 w) = (if isErr (fromU16 w) then none else some (w &&& 0o7777)) := by
+  rcases fromU16_cases w with ⟨_, e⟩ | ⟨_, e⟩ | ⟨_, e⟩ | ⟨_, _, _, e⟩ <;> rw [e] <;> rfl
+
+/-- **named constructors**: the value that is built holds the masked permissions in its public field (not only behind
+the getters) -/
+theorem ctor_field (p : Nat) :
+    fieldOf (mkRegular p) = some (p &&& 0o7777) ∧ fieldOf (mkDir p) = some (p &&& 0o7777)
+    ∧ fieldOf (mkSymlink p) = some (p &&& 0o7777) := by
+  obtain ⟨⟨c1, c2, c3⟩, _⟩ := ctor_masks p
+  rw [c1, c2, c3]; exact ⟨rfl, rfl, rfl⟩
+
+/-- converting the mode word of a converted word gives the same value again -/
+theorem u16_reconverted (w : Nat) (h : w < 65536) : reconverted (fromU16 w) = fromU16 w := by
+  unfold reconverted; rw [(u16_roundtrip w h).1]
+
+/-- … for an integer exactly when it is inside the 16-bit range: an out-of-range `Invalid` keeps the offending number,
+its mode word is only the low 16 bits of it -/
+theorem i32_reconverted_iff (n : Int) : reconverted (fromI32 n) = fromI32 n ↔ (-32768 ≤ n ∧ n ≤ 65535) := by
+  constructor
+  · intro h
+    by_cases hr : n > 65535 ∨ n < -32768
+    · exfalso
+      rw [(i32_out_of_range n hr).1] at h
+      unfold reconverted at h
+      simp only [rawMode] at h
+      rcases fromU16_cases (asU16 n) with ⟨_, e⟩ | ⟨_, e⟩ | ⟨_, e⟩ | ⟨_, _, _, e⟩ <;> rw [e] at h
+      · cases h
+      · cases h
+      · cases h
+      · have := asU16_lt n
+        simp only [FileMode.invalid.injEq] at h
+        omega
+    · omega
+  · rintro ⟨h1, h2⟩
+    obtain ⟨e, hb⟩ := i32_in_range n h1 h2
+    rw [e]; exact u16_reconverted _ hb
+
+/-- the values a mode word can be converted to without change: permissions of 12 bits under a known type, or an `Invalid`
+holding a 16-bit word of unknown type -/
+def Canonical : FileMode → Prop
+  | .dir p | .regular p | .symlink p => p < 4096
+  | .invalid r => 0 ≤ r ∧ r ≤ 65535 ∧ r.toNat &&& 0o170000 ≠ 0o040000 ∧ r.toNat &&& 0o170000 ≠ 0o100000
+      ∧ r.toNat &&& 0o170000 ≠ 0o120000
+
+theorem or_type_parts (p t : Nat) (hp : p < 4096) (a : t &&& 0o170000 = t) (b : t &&& 0o7777 = 0) :
+    (p ||| t) &&& 0o170000 = t ∧ (p ||| t) &&& 0o7777 = p := by
+  have hp' : p &&& 0o7777 = p := by
+    have : (0o7777 : Nat) = 2 ^ 12 - 1 := by decide
+    rw [this, Nat.and_two_pow_sub_one_eq_mod]; omega
+  have h1 := perm_and_type p
+  rw [hp'] at h1
+  rw [Nat.and_or_distrib_right, Nat.and_or_distrib_right, h1, hp', a, b, Nat.zero_or, Nat.or_zero]
+  exact ⟨rfl, rfl⟩
+
+/-- `FileMode::from(m.raw_mode()) == m` holds exactly for the canonical values. In particular a value written as a
+variant literal with more than 12 permission bits (`FileMode::Regular { permissions: 0o10644 }` — possible, the fields
+are public) is NOT reproduced, while everything the constructors and conversions build is. -/
+theorem reconverted_eq_iff (m : FileMode) : reconverted m = m ↔ Canonical m := by
+  obtain ⟨e1, e2, e3, e4, e5⟩ := consts
+  cases m with
+  | dir p =>
+    simp only [reconverted, rawMode, fileType, Canonical]
+    constructor
+    · intro h
+      have := u16_perm_12bit (p ||| dirFileType)
+      rw [h] at this
+      simpa [permissions, isErr] using this
+    · intro hp
+      rw [e3]
+      obtain ⟨a, b⟩ := or_type_parts p 0o040000 hp (by decide) (by decide)
+      rcases fromU16_cases (p ||| 0o040000) with ⟨h, e⟩ | ⟨h, e⟩ | ⟨h, e⟩ | ⟨h, _, _, e⟩
+      · rw [e, b]
+      · rw [a] at h; exact absurd h (by decide)
+      · rw [a] at h; exact absurd h (by decide)
+      · exact absurd a h
+  | regular p =>
+    simp only [reconverted, rawMode, fileType, Canonical]
+    constructor
+    · intro h
+      have := u16_perm_12bit (p ||| regularFileType)
+      rw [h] at this
+      simpa [permissions, isErr] using this
+    · intro hp
+      rw [e4]
+      obtain ⟨a, b⟩ := or_type_parts p 0o100000 hp (by decide) (by decide)
+      rcases fromU16_cases (p ||| 0o100000) with ⟨h, e⟩ | ⟨h, e⟩ | ⟨h, e⟩ | ⟨_, h, _, e⟩
+      · rw [a] at h; exact absurd h (by decide)
+      · rw [e, b]
+      · rw [a] at h; exact absurd h (by decide)
+      · exact absurd a h
+  | symlink p =>
+    simp only [reconverted, rawMode, fileType, Canonical]
+    constructor
+    · intro h
+      have := u16_perm_12bit (p ||| symbolicLinkFileType)
+      rw [h] at this
+      simpa [permissions, isErr] using this
+    · intro hp
+      rw [e5]
+      obtain ⟨a, b⟩ := or_type_parts p 0o120000 hp (by decide) (by decide)
+      rcases fromU16_cases (p ||| 0o120000) with ⟨h, e⟩ | ⟨h, e⟩ | ⟨h, e⟩ | ⟨_, _, h, e⟩
+      · rw [a] at h; exact absurd h (by decide)
+      · rw [a] at h; exact absurd h (by decide)
+      · rw [e, b]
+      · exact absurd a h
+  | invalid r =>
+    simp only [reconverted, rawMode, Canonical]
+    have hlt := asU16_lt r
+    constructor
+    · intro h
+      rcases fromU16_cases (asU16 r) with ⟨_, e⟩ | ⟨_, e⟩ | ⟨_, e⟩ | ⟨h1, h2, h3, e⟩ <;> rw [e] at h
+      · cases h
+      · cases h
+      · cases h
+      · simp only [FileMode.invalid.injEq] at h
+        have hr : r.toNat = asU16 r := by omega
+        rw [hr]
+        exact ⟨by omega, by omega, h1, h2, h3⟩
+    · rintro ⟨h0, h1, t1, t2, t3⟩
+      have hr : asU16 r = r.toNat := by unfold asU16; omega
+      rw [hr]
+      rcases fromU16_cases r.toNat with ⟨h, _⟩ | ⟨h, _⟩ | ⟨h, _⟩ | ⟨_, _, _, e⟩
+      · exact absurd h t1
+      · exact absurd h t2
+      · exact absurd h t3
+      · rw [e]; congr 1; omega
+
+/-- everything the two conversions and the three constructors build is canonical — except an out-of-range integer -/
+theorem built_canonical (w : Nat) (hw : w < 65536) (p : Nat) :
+    Canonical (fromU16 w) ∧ Canonical (mkRegular p) ∧ Canonical (mkDir p) ∧ Canonical (mkSymlink p) := by
+  obtain ⟨r1, r2, r3⟩ := ctor_roundtrip p
+  exact ⟨(reconverted_eq_iff _).mp (u16_reconverted w hw), (reconverted_eq_iff _).mp r1, (reconverted_eq_iff _).mp r2,
+    (reconverted_eq_iff _).mp r3⟩
+
+/-- what the observation says about re-conversion: for a value that is reproduced, `==` and the hash comparison both say so -/
+theorem observe_reconverted (m : FileMode) (h : reconverted m = m) :
+    (observe m).rtEq = true ∧ (observe m).hashEq = true := by
+  simp only [observe, h]
+  exact ⟨(derivedEq_iff m m).mpr rfl, by simp⟩
+
+/-- `Hash` agrees with `==` on every observation of the model -/
+theorem observe_eqHashOk (m : FileMode) : eqHashOk (observe m) = true := by
+  unfold eqHashOk
+  by_cases h : (observe m).rtEq = true
+  · have e : reconverted m = m := (derivedEq_iff _ _).mp (by simpa [observe] using h)
+    rw [(observe_reconverted m e).1, (observe_reconverted m e).2]; rfl
+  · simp only [Bool.not_eq_true] at h
+    rw [h]; rfl
+
 /-! ### the driver's spec predicates hold of the model on every input -/
 
 /-- `specWord` (round trip, recombination, the three classifications) for every 16-bit word. -/
@@ -210,8 +376,11 @@ theorem spec_word (w : Nat) (h : w < 65536) : specWord w (observe (fromU16 w)) =
     · have : a ≠ c := fun e => Bool.noConfusion (hx.mpr e)
       simp [this]
     · simp [hx.mp rfl]
-  simp only [specWord, observe, typeBits, r1, r2, r3, rc, kd, kr, ks, beq_self_eq_true, Bool.true_and,
-    Bool.and_eq_true]
+  obtain ⟨q1, q2⟩ := observe_reconverted _ (u16_reconverted w h)
+  unfold specWord
+  rw [q1, q2]
+  simp only [observe, typeBits, r1, r2, r3, rc, kd, kr, ks, beq_self_eq_true, Bool.true_and,
+    Bool.and_eq_true, Bool.and_true]
   exact ⟨⟨b _ _ _ cd, b _ _ _ cr⟩, b _ _ _ cs⟩
 
 /-- `specInt` for every integer: out of range → reported invalid; in range → as the 16-bit word. -/
@@ -225,7 +394,9 @@ theorem spec_int (n : Int) : specInt n (observe (fromI32 n)) = true := by
         simp [this]
       · have : ¬ -32768 ≤ n := by omega
         simp [this]
-    rw [hr, (i32_out_of_range n h).1]
+    rw [hr]
+    simp only [Bool.false_eq_true, if_false, observe_eqHashOk, Bool.and_true]
+    rw [(i32_out_of_range n h).1]
     rfl
   · have hb : -32768 ≤ n ∧ n ≤ 65535 := by omega
     have hr : inRange16 n = true := by unfold inRange16; simp [hb.1, hb.2]
@@ -238,8 +409,12 @@ theorem spec_ctor (p : Nat) :
     specCtor .regular p (observe (mkRegular p)) = true ∧ specCtor .dir p (observe (mkDir p)) = true
     ∧ specCtor .symlink p (observe (mkSymlink p)) = true := by
   obtain ⟨⟨c1, c2, c3⟩, _, _, _, hlt⟩ := ctor_masks p
-  rw [c1, c2, c3]
-  simp [specCtor, observe, kindOf, permissions, hlt, rawMode, toU16, toU32, fileType, typeWord,
+  have k1 := observe_eqHashOk (mkRegular p)
+  have k2 := observe_eqHashOk (mkDir p)
+  have k3 := observe_eqHashOk (mkSymlink p)
+  unfold specCtor
+  rw [k1, k2, k3, c1, c2, c3]
+  simp [observe, kindOf, permissions, hlt, rawMode, toU16, toU32, fileType, typeWord, fieldOf,
     dirFileType, regularFileType, symbolicLinkFileType]
   exact ⟨Nat.or_comm _ _, Nat.or_comm _ _, Nat.or_comm _ _⟩
 
@@ -263,5 +438,21 @@ example : specInt 70000 (observe (.regular 0)) = false := by decide
 example : specCtor .regular 0o17777 (observe (.regular 0o17777)) = false := by decide
 -- the unmasked constructor of seed C18-8 with masking moved to `permissions()`: kind and permissions fine, the word is a symlink's
 example : specCtor .regular 0o20644 { (observe (.regular 0o644)) with raw := 0o120644, back16 := 0o120644, back32 := 0o120644 } = false := by decide
+
+-- a19: a constructor that stores the argument unmasked while every getter masks — all getters fine, the FIELD clause fails
+example : specCtor .regular 0o10644 { (observe (.regular 0o644)) with field := some 0o10644 } = false := by decide
+-- … and such a value is not reproduced from its own mode word: `==` says no
+example : reconverted (.regular 0o10644) = .invalid 0o110644 ∧ derivedEq (reconverted (.regular 0o10644)) (.regular 0o10644) = false
+    ∧ ¬ Canonical (.regular 0o10644) := by
+  refine ⟨by decide, by decide, ?_⟩
+  simp [Canonical]
+-- an out-of-range integer is not reproduced either (its mode word is only its low 16 bits), everything in range is
+example : reconverted (fromI32 98304) = .regular 0 ∧ fromI32 98304 = .invalid 98304 ∧ (observe (fromI32 98304)).rtEq = false
+    ∧ (observe (fromI32 98304)).hashEq = false ∧ (observe (fromI32 (-24147))).rtEq = true := by decide
+-- the two reasons: 0o060660 (a block device) is an unknown type, 70000 is out of bounds
+example : (observe (fromU16 0o060660)).reason = some .unknownFileType ∧ (observe (fromI32 70000)).reason = some .outOf16BitBounds
+    ∧ (observe (fromI32 (-1))).reason = some .unknownFileType ∧ (observe (fromI32 (-40000))).reason = some .outOf16BitBounds := by decide
+-- a word whose `==`-round-trip flag were false fails the word spec
+example : specWord 0o100644 { (observe (fromU16 0o100644)) with rtEq := false } = false := by decide
 
 end RpmVerif.C18
